@@ -36,6 +36,19 @@ type FS struct {
 	Ops   int            // fs operations executed on simulated paths
 	ByOp  map[string]int // per operation kind
 	Bytes int64
+	// LogOps makes the disk record every operation (harnesses use it to
+	// enumerate crash points).
+	LogOps bool
+	Log    []OpRec
+}
+
+// OpRec describes one executed file system operation.
+type OpRec struct {
+	Proc int    `json:"proc"`
+	Op   int    `json:"op"`
+	Kind string `json:"kind"`
+	Len  int    `json:"len,omitempty"`
+	Path string `json:"path,omitempty"`
 }
 
 // Install creates an empty simulated disk for paths below root and attaches
@@ -126,9 +139,16 @@ var errDead = errors.New("simos: process is dead")
 // begin is the common prologue of an operation on a simulated path. It is a
 // scheduling point. It returns the fault planned for this operation.
 func (f *FS) begin(op string) *verifsim.Fault {
-	_, fault := verifsim.FSOp()
+	return f.beginL(op, 0, "")
+}
+
+func (f *FS) beginL(op string, n int, path string) *verifsim.Fault {
+	idx, fault := verifsim.FSOp()
 	f.Ops++
 	f.ByOp[op]++
+	if f.LogOps {
+		f.Log = append(f.Log, OpRec{Proc: verifsim.CurProc(), Op: idx, Kind: op, Len: n, Path: path})
+	}
 	if fault != nil && fault.Kind == "crash" {
 		verifsim.FaultFired(verifsim.FCrash)
 		verifsim.CrashCurrent()
@@ -223,6 +243,13 @@ func MkdirAll(path string, perm os.FileMode) error {
 	}
 	if verifsim.Killed() {
 		return perr("mkdir", path, errDead)
+	}
+	if d, err := f.lookup(parts); err == nil && d.dir {
+		// Already there: no state change and nothing another process could
+		// observe, so not a scheduling or fault point (keeps the 256
+		// MkdirAll calls of cache.Open out of the schedule space).
+		f.ByOp["mkdirall(noop)"]++
+		return nil
 	}
 	f.begin("mkdirall")
 	n := f.top
@@ -624,7 +651,7 @@ func (f *File) Write(b []byte) (int, error) {
 	if f.flag&(os.O_WRONLY|os.O_RDWR) == 0 {
 		return 0, perr("write", f.name, syscall.EBADF)
 	}
-	fault := f.fs.begin("write")
+	fault := f.fs.beginL("write", len(b), f.name)
 	if fault != nil {
 		switch fault.Kind {
 		case "crash_write":
